@@ -175,6 +175,36 @@ func vfCorpusScan(minSize, maxSize int64) []vfCorpusCand {
 		if !readable {
 			continue
 		}
+		// further features from the read trace (only when the os->vos seam is compiled in):
+		// which kinds of signed structures the complete traversal reads (global heap
+		// collections, fractal heaps, v2 B-trees, chunk B-trees, ...); the first structure of
+		// each kind counts as an "object" whose first bytes can be focused
+		func() {
+			defer func() { recover() }()
+			b, err := os.ReadFile(fn)
+			if err != nil {
+				return
+			}
+			pl := &vos.Plan{Trace: true}
+			vos.SetPlan(fn, pl)
+			defer vos.SetPlan(fn, nil)
+			vfC07Drive(fn)
+			seen := map[string]bool{}
+			for _, rd := range pl.Reads {
+				if rd[0] < 0 || rd[0]+4 > int64(len(b)) {
+					continue
+				}
+				sig := string(b[rd[0] : rd[0]+4])
+				for _, known := range vfSignatures {
+					if sig == known && !seen[sig] && known != "\x89HDF" {
+						seen[sig] = true
+						k := "reads-structure-" + sig
+						feat[k] = true
+						objFeat[uint64(rd[0])] = append(objFeat[uint64(rd[0])], k)
+					}
+				}
+			}
+		}()
 		cands = append(cands, vfCorpusCand{fn, st.Size(), tr, feat, objFeat})
 	}
 	return cands
@@ -339,9 +369,9 @@ func TestVerif_C17(t *testing.T) {
 	vfDumpPartial = true // the traversal includes ReadSlice (twice on the same handle) and a full chunk iteration
 	defer func() { vfDumpPartial = false }()
 	bases := vfLibBaseFiles(t, dir)
-	nCorpus, maxSize := 8, int64(8192)
+	nCorpus, maxSize := 12, int64(16384)
 	if r.Thorough() {
-		nCorpus, maxSize = 24, 16384
+		nCorpus, maxSize = 30, 32768
 	}
 	bases = append(bases, vfCorpusBaseFiles(nCorpus, maxSize)...)
 	var names []string
